@@ -330,7 +330,7 @@ func visitInstr(fr *frame, instr ssa.Instruction) continuation {
 		s, ok := (*p).(structure)
 		if !ok {
 			in.checkOpaque(*p)
-			panic(fmt.Sprintf("FieldAddr on %T", *p))
+			panic(unsupported{fmt.Sprintf("field access through a pointer to %T (unsafe reinterpretation?)", *p)})
 		}
 		fr.env.set(instr, &s[instr.Field])
 	case *ssa.Field:
@@ -821,11 +821,39 @@ func runFrame(fr *frame) {
 	for {
 		nonPhis := executePhis(fr)
 		for _, instr := range nonPhis {
+			if fr.tolerant {
+				if visitTolerant(fr, instr) == kReturn {
+					return
+				}
+				continue
+			}
 			if visitInstr(fr, instr) == kReturn {
 				return
 			}
 		}
 	}
+}
+
+// visitTolerant executes one instruction of a package initialiser; an unsupported operation
+// makes that instruction's value opaque instead of aborting the initialiser.
+func visitTolerant(fr *frame, instr ssa.Instruction) (k continuation) {
+	defer func() {
+		if r := recover(); r != nil {
+			u, ok := r.(unsupported)
+			if !ok {
+				panic(r)
+			}
+			switch instr.(type) {
+			case *ssa.If, *ssa.Jump, *ssa.Return, *ssa.Panic:
+				panic(r) // control flow cannot be made opaque
+			}
+			if v, isVal := instr.(ssa.Value); isVal {
+				fr.env.set(v, opaqueV{u.why})
+			}
+			k = kNext
+		}
+	}()
+	return visitInstr(fr, instr)
 }
 
 func executePhis(fr *frame) []ssa.Instruction {
@@ -1204,7 +1232,7 @@ var staticPkgs = map[string]bool{
 	"unicode": true, "unicode/utf8": true, "unicode/utf16": true, "strings": true, "bytes": true,
 	"io": true, "bufio": true, "errors": true, "sort": true, "slices": true, "strconv": true,
 	"math": true, "math/bits": true, "internal/bytealg": true, "internal/stringslite": true,
-	"internal/itoa": true, "io/fs": true, "internal/oserror": true, "syscall": true, "time": true,
+	"internal/itoa": true, "io/fs": true, "internal/oserror": true, "syscall": true,
 }
 
 func (in *Interp) isStaticPkg(p *ssa.Package) bool {
